@@ -111,6 +111,15 @@ fn saturate(id: &str, c: &Value) -> Value {
            "u32_full": u32_16bit_word::ones_complement(s32b).to_be(), "u64_full": u64_16bit_word::ones_complement(s64b).to_be()})
 }
 
+/// values for the length field of an IP header that is handed to a checksum function next to a transport message of n bytes: the real
+/// length, more (extension headers in between), less / stale
+fn ip6_len_variants(n: usize) -> Vec<(&'static str, u16)> {
+    vec![("ip.len=msg", n.min(65535) as u16), ("ip.len=msg+8", (n + 8).min(65535) as u16), ("ip.len=msg+24", (n + 24).min(65535) as u16), ("ip.len=1", 1), ("ip.len=max", 65535)]
+}
+fn ip4_len_variants(n: usize) -> Vec<(&'static str, u16)> {
+    vec![("ip.len=msg", n.min(65515) as u16), ("ip.len=msg+12", (n + 12).min(65515) as u16), ("ip.len=3", 3), ("ip.len=max", 65515)]
+}
+
 fn proto(id: &str, c: &Value) -> Value {
     let what = c["kind"].as_str().unwrap();
     let src = bytes_of(&c["src"]);
@@ -138,6 +147,16 @@ fn proto(id: &str, c: &Value) -> Value {
                 push("UdpHeader::with_ipv4_checksum", UdpHeader::with_ipv4_checksum(sp, dp, &ip, &payload).map(|x| x.checksum as i64).unwrap_or(-1));
                 let mut t = TransportHeader::Udp(h.clone());
                 push("TransportHeader::update_checksum_ipv4", t.update_checksum_ipv4(&ip, &payload).map(|_| t.udp().unwrap().checksum as i64).unwrap_or(-1));
+                // the IP header only supplies the addresses: whatever its own length field says (the real length, more because of an
+                // authentication header, something stale) the pseudo header carries the length of the UDP message
+                if payload.len() < 60000 {
+                    for (tag, pl) in ip4_len_variants(8 + payload.len()) {
+                        let ip = Ipv4Header::new(pl, 9, ip_number::UDP, arr::<4>(&src), arr::<4>(&dst)).unwrap();
+                        push(&format!("UdpHeader::calc_checksum_ipv4[{}]", tag), res(h.calc_checksum_ipv4(&ip, &payload)));
+                        let mut t = TransportHeader::Udp(h.clone());
+                        push(&format!("TransportHeader::update_checksum_ipv4[{}]", tag), t.update_checksum_ipv4(&ip, &payload).map(|_| t.udp().unwrap().checksum as i64).unwrap_or(-1));
+                    }
+                }
                 match UdpHeader::without_ipv4_checksum(sp, dp, payload.len()) {
                     Ok(w) => push("UdpHeader::without_ipv4_checksum.is_zero", if w.checksum == 0 && w.length as usize == 8 + payload.len() { -2 } else { -3 }),
                     Err(_) => push("UdpHeader::without_ipv4_checksum.is_zero", if payload.len() > 65527 { -2 } else { -3 }),
@@ -149,6 +168,14 @@ fn proto(id: &str, c: &Value) -> Value {
                 push("UdpHeader::with_ipv6_checksum", UdpHeader::with_ipv6_checksum(sp, dp, &ip, &payload).map(|x| x.checksum as i64).unwrap_or(-1));
                 let mut t = TransportHeader::Udp(h.clone());
                 push("TransportHeader::update_checksum_ipv6", t.update_checksum_ipv6(&ip, &payload).map(|_| t.udp().unwrap().checksum as i64).unwrap_or(-1));
+                if payload.len() < 60000 {
+                    for (tag, pl) in ip6_len_variants(8 + payload.len()) {
+                        let ip = Ipv6Header { payload_length: pl, ..ip.clone() };
+                        push(&format!("UdpHeader::calc_checksum_ipv6[{}]", tag), res(h.calc_checksum_ipv6(&ip, &payload)));
+                        let mut t = TransportHeader::Udp(h.clone());
+                        push(&format!("TransportHeader::update_checksum_ipv6[{}]", tag), t.update_checksum_ipv6(&ip, &payload).map(|_| t.udp().unwrap().checksum as i64).unwrap_or(-1));
+                    }
+                }
             }
         }
         "tcp4" | "tcp6" => {
@@ -169,6 +196,15 @@ fn proto(id: &str, c: &Value) -> Value {
                 push("TcpSlice::calc_checksum_ipv4", res(ts.calc_checksum_ipv4(arr::<4>(&src), arr::<4>(&dst))));
                 let mut t = TransportHeader::Tcp(h.clone());
                 push("TransportHeader::update_checksum_ipv4", t.update_checksum_ipv4(&ip, &payload).map(|_| t.tcp().unwrap().checksum as i64).unwrap_or(-1));
+                if payload.len() < 60000 {
+                    for (tag, pl) in ip4_len_variants(hdr.len() + payload.len()) {
+                        let ip = Ipv4Header::new(pl, 9, ip_number::TCP, arr::<4>(&src), arr::<4>(&dst)).unwrap();
+                        push(&format!("TcpHeader::calc_checksum_ipv4[{}]", tag), res(h.calc_checksum_ipv4(&ip, &payload)));
+                        push(&format!("TcpHeaderSlice::calc_checksum_ipv4[{}]", tag), res(hs.calc_checksum_ipv4(&Ipv4HeaderSlice::from_slice(&ip.to_bytes()).unwrap(), &payload)));
+                        let mut t = TransportHeader::Tcp(h.clone());
+                        push(&format!("TransportHeader::update_checksum_ipv4[{}]", tag), t.update_checksum_ipv4(&ip, &payload).map(|_| t.tcp().unwrap().checksum as i64).unwrap_or(-1));
+                    }
+                }
             } else {
                 let ip = Ipv6Header { traffic_class: 0, flow_label: Ipv6FlowLabel::ZERO, payload_length: 0, next_header: ip_number::TCP, hop_limit: 3, source: arr::<16>(&src), destination: arr::<16>(&dst) };
                 push("TcpHeader::calc_checksum_ipv6", res(h.calc_checksum_ipv6(&ip, &payload)));
@@ -178,6 +214,15 @@ fn proto(id: &str, c: &Value) -> Value {
                 push("TcpSlice::calc_checksum_ipv6", res(ts.calc_checksum_ipv6(arr::<16>(&src), arr::<16>(&dst))));
                 let mut t = TransportHeader::Tcp(h.clone());
                 push("TransportHeader::update_checksum_ipv6", t.update_checksum_ipv6(&ip, &payload).map(|_| t.tcp().unwrap().checksum as i64).unwrap_or(-1));
+                if payload.len() < 60000 {
+                    for (tag, pl) in ip6_len_variants(hdr.len() + payload.len()) {
+                        let ip = Ipv6Header { payload_length: pl, ..ip.clone() };
+                        push(&format!("TcpHeader::calc_checksum_ipv6[{}]", tag), res(h.calc_checksum_ipv6(&ip, &payload)));
+                        push(&format!("TcpHeaderSlice::calc_checksum_ipv6[{}]", tag), res(hs.calc_checksum_ipv6(&Ipv6HeaderSlice::from_slice(&ip.to_bytes()).unwrap(), &payload)));
+                        let mut t = TransportHeader::Tcp(h.clone());
+                        push(&format!("TransportHeader::update_checksum_ipv6[{}]", tag), t.update_checksum_ipv6(&ip, &payload).map(|_| t.tcp().unwrap().checksum as i64).unwrap_or(-1));
+                    }
+                }
             }
         }
         "icmp4" => {
@@ -185,7 +230,29 @@ fn proto(id: &str, c: &Value) -> Value {
             let mut whole = raw.clone();
             whole.extend(&payload);
             match Icmpv4Slice::from_slice(&whole) {
-                Err(_) => return json!({"ev": "cks_skip", "id": id}),
+                Err(_) => {
+                    // a timestamp message followed by more bytes is not a sliceable message, but the header level API takes a payload: the
+                    // checksum it fills in covers the header and whatever is sent behind it (RFC 792: "the ICMP message")
+                    if whole.len() > 20 && (whole[0] == 13 || whole[0] == 14) && whole[1] == 0 {
+                        if let Ok((h, _)) = Icmpv4Header::from_slice(&whole[..20]) {
+                            let pl = whole[20..].to_vec();
+                            hdr = h.to_bytes().to_vec();
+                            push("Icmpv4Type::calc_checksum[timestamp+data]", h.icmp_type.calc_checksum(&pl) as i64);
+                            push("Icmpv4Header::with_checksum[timestamp+data]", Icmpv4Header::with_checksum(h.icmp_type.clone(), &pl).checksum as i64);
+                            let mut h2 = h.clone();
+                            h2.update_checksum(&pl);
+                            push("Icmpv4Header::update_checksum[timestamp+data]", h2.checksum as i64);
+                            let ip = Ipv4Header::new(0, 9, ip_number::ICMP, [1, 2, 3, 4], [5, 6, 7, 8]).unwrap();
+                            let mut t = TransportHeader::Icmpv4(h.clone());
+                            push("TransportHeader::update_checksum_ipv4[timestamp+data]", t.update_checksum_ipv4(&ip, &pl).map(|_| t.icmpv4().unwrap().checksum as i64).unwrap_or(-1));
+                            let ip6 = Ipv6Header { traffic_class: 0, flow_label: Ipv6FlowLabel::ZERO, payload_length: 0, next_header: ip_number::ICMP, hop_limit: 3, source: [1; 16], destination: [2; 16] };
+                            let mut t = TransportHeader::Icmpv4(h.clone());
+                            push("TransportHeader::update_checksum_ipv6[timestamp+data]", t.update_checksum_ipv6(&ip6, &pl).map(|_| t.icmpv4().unwrap().checksum as i64).unwrap_or(-1));
+                            return json!({"ev": "cks", "id": id, "what": what, "src": [], "dst": [], "hdr": hdr, "cksoff": 2, "payload": pl, "results": results, "valid": -1});
+                        }
+                    }
+                    return json!({"ev": "cks_skip", "id": id});
+                }
                 Ok(s) => {
                     let h = s.header();
                     hdr = h.to_bytes().to_vec();
@@ -199,6 +266,11 @@ fn proto(id: &str, c: &Value) -> Value {
                     let mut t = TransportHeader::Icmpv4(h.clone());
                     let ip = Ipv4Header::new(0, 9, ip_number::ICMP, [1, 2, 3, 4], [5, 6, 7, 8]).unwrap();
                     push("TransportHeader::update_checksum_ipv4", t.update_checksum_ipv4(&ip, &pl).map(|_| t.icmpv4().unwrap().checksum as i64).unwrap_or(-1));
+                    for (tag, l) in ip4_len_variants(hdr.len() + pl.len()) {
+                        let ip = Ipv4Header::new(l, 9, ip_number::ICMP, [1, 2, 3, 4], [5, 6, 7, 8]).unwrap();
+                        let mut t = TransportHeader::Icmpv4(h.clone());
+                        push(&format!("TransportHeader::update_checksum_ipv4[{}]", tag), t.update_checksum_ipv4(&ip, &pl).map(|_| t.icmpv4().unwrap().checksum as i64).unwrap_or(-1));
+                    }
                     return json!({"ev": "cks", "id": id, "what": what, "src": [], "dst": [], "hdr": hdr, "cksoff": cksoff, "payload": pl, "results": results, "valid": -1});
                 }
             }
@@ -221,6 +293,13 @@ fn proto(id: &str, c: &Value) -> Value {
                     let ip = Ipv6Header { traffic_class: 0, flow_label: Ipv6FlowLabel::ZERO, payload_length: 0, next_header: ip_number::IPV6_ICMP, hop_limit: 3, source: s16, destination: d16 };
                     let mut t = TransportHeader::Icmpv6(h.clone());
                     push("TransportHeader::update_checksum_ipv6", t.update_checksum_ipv6(&ip, &pl).map(|_| t.icmpv6().unwrap().checksum as i64).unwrap_or(-1));
+                    if pl.len() < 60000 {
+                        for (tag, l) in ip6_len_variants(hdr.len() + pl.len()) {
+                            let ip = Ipv6Header { payload_length: l, ..ip.clone() };
+                            let mut t = TransportHeader::Icmpv6(h.clone());
+                            push(&format!("TransportHeader::update_checksum_ipv6[{}]", tag), t.update_checksum_ipv6(&ip, &pl).map(|_| t.icmpv6().unwrap().checksum as i64).unwrap_or(-1));
+                        }
+                    }
                     // validation of the received bytes as they are (checksum field included)
                     valid = if s.is_checksum_valid(s16, d16) { 1 } else { 0 };
                     return json!({"ev": "cks", "id": id, "what": what, "src": src, "dst": dst, "hdr": hdr, "cksoff": cksoff, "payload": pl, "results": results,
